@@ -40,6 +40,10 @@ class Plain(object):
     pass
 
 
+# one-shot iterators handed to eliot as field values in the current case: logging must not use them up
+ITERATORS = []
+
+
 def decode_hostile(v):
     t = v[V.TAG]
     if t == "badstr":
@@ -59,7 +63,9 @@ def decode_hostile(v):
     if t == "lambda":
         return lambda: None
     if t == "generator":
-        return (i for i in range(3))
+        g = (i for i in range(3))
+        ITERATORS.append(g)
+        return g
     if t == "type":
         return Plain
     if t == "excinstance":
